@@ -205,9 +205,9 @@ func genRangeConc(c *ctx) {
 			for i := range fs {
 				i := i
 				fs[i] = func() string {
-					rs[i].t0 = time.Now().UnixNano()
+					rs[i].t0 = vnow()
 					rs[i].res = askOne(s.h, "D", macs[i], nil)
-					rs[i].t1 = time.Now().UnixNano()
+					rs[i].t1 = vnow()
 					return "done"
 				}
 			}
@@ -286,9 +286,9 @@ func genPrefixConc(c *ctx) {
 		for i := range fs {
 			i := i
 			fs[i] = func() string {
-				rs[i].t0 = time.Now().UnixNano()
+				rs[i].t0 = vnow()
 				rs[i].res = s.rawMsg(strings.Fields(ops[i])[1:])
-				rs[i].t1 = time.Now().UnixNano()
+				rs[i].t1 = vnow()
 				return "done"
 			}
 		}
